@@ -209,13 +209,13 @@ func (c *Ctx) structFieldOfArg(fname string, m IM, idx int, f string) []string {
 // pageSizeOwners: DB.pageSize is learned from a database/journal/LTX header and never reset.
 func (c *Ctx) pageSizeOwners(key string) {
 	p := c.P
-	c.OnlyIn(key, p.Writes("litefs.DB.pageSize"), []string{pat("litefs.(*DB).initFromDatabaseHeader"), pat("litefs.(*DB).initDatabaseFile"), pat("litefs.(*DB).WriteDatabaseAt"), pat("litefs.(*DB).WriteJournalAt"), pat("litefs.(*DB).ApplyLTXNoLock")}, 5,
-		"DB.pageSize is written only where a header teaches it (database header at open, first page write, journal header, LTX header) - never reset, in particular not by Drop", "the page-size guard of the import relies on the remembered size; replicas keep theirs, so a primary that forgets it accepts an import that stops every replica")
+	c.OnlyIn(key, p.Writes("litefs.DB.pageSize"), []string{pat("litefs.(*DB).initFromDatabaseHeader"), pat("litefs.(*DB).initDatabaseFile"), pat("litefs.(*DB).WriteDatabaseAt"), pat("litefs.(*DB).WriteJournalAt"), pat("litefs.(*DB).ApplyLTXNoLock"), pat("litefs.(*DB).readWALPageOffsets")}, 6,
+		"DB.pageSize is written only where a header teaches it (database header at open, first page write, journal header, LTX header, WAL header when the database file has none yet) - never reset, in particular not by Drop", "the page-size guard of the import relies on the remembered size; replicas keep theirs, so a primary that forgets it accepts an import that stops every replica")
 	var vals []string
 	for _, fn := range p.SrcFuncs() {
 		for _, in := range Instrs(fn, p.Writes("litefs.DB.pageSize")) {
 			vals = append(vals, fieldStoreVal(p, in))
 		}
 	}
-	c.ExpectAll(key+"/values", vals, `.*(PageSize|encoding/binary\.\(bigEndian\)\.Uint32).*`, 5, "every value written is a header's page-size field", "")
+	c.ExpectAll(key+"/values", vals, `.*(PageSize|encoding/binary\.\(bigEndian\)\.Uint32).*`, 6, "every value written is a header's page-size field", "")
 }
